@@ -247,7 +247,7 @@ pub fn run_sched(
         }),
     );
     for p in r.per_prog.iter().take(200) {
-        rep.cov_push("programs", p.clone());
+        rep.cov_push("thread_programs", p.clone());
     }
     for p in r.per_prog.iter().take(3) {
         rep.cov_push("samples", p.clone());
